@@ -25,31 +25,31 @@ Definition tile_bbox_c (g : grid) (c : coord) : bbox := let '(x, y, l) := c in t
 Definition shift_xy (b : bbox) (dx dy : Z) : bbox :=
   let '(x0, y0, x1, y1) := b in (x0 + dx, y0 + dy, x1 + dx, y1 + dy).
 
-Lemma internal_some s x y z up c :
-  internal_tile_coord s x y z up = Some c ->
-  0 <= z /\ c = (x, y, public_level s up z) /\ valid_level (sg s) (public_level s up z) = true /\
-  0 <= x < fst (grid_size (sg s) (public_level s up z)) /\ 0 <= y < snd (grid_size (sg s) (public_level s up z)).
+Lemma internal_some s x y z up all c :
+  internal_tile_coord s x y z up all = Some c ->
+  0 <= z /\ c = (x, y, req_level s up all z) /\ valid_level (sg s) (req_level s up all z) = true /\
+  0 <= x < fst (grid_size (sg s) (req_level s up all z)) /\ 0 <= y < snd (grid_size (sg s) (req_level s up all z)).
 Proof.
   unfold internal_tile_coord. destruct (z <? 0) eqn:E; [discriminate|]. intros H.
   apply limit_tile_some in H. destruct H as (-> & Hv & Hx & Hy). repeat split; try assumption; lia.
 Qed.
 
-Lemma internal_valid s x y z up :
-  0 <= z -> valid_level (sg s) (public_level s up z) = true ->
-  0 <= x < fst (grid_size (sg s) (public_level s up z)) -> 0 <= y < snd (grid_size (sg s) (public_level s up z)) ->
-  internal_tile_coord s x y z up = Some (x, y, public_level s up z).
+Lemma internal_valid s x y z up all :
+  0 <= z -> valid_level (sg s) (req_level s up all z) = true ->
+  0 <= x < fst (grid_size (sg s) (req_level s up all z)) -> 0 <= y < snd (grid_size (sg s) (req_level s up all z)) ->
+  internal_tile_coord s x y z up all = Some (x, y, req_level s up all z).
 Proof.
   intros Hz Hv Hx Hy. unfold internal_tile_coord. replace (z <? 0) with false by lia.
   apply limit_tile_valid; assumption.
 Qed.
 
-Lemma layer_internal_some s o up x y z c :
-  layer_internal s o up x y z = Some c ->
-  0 <= z /\ c = flip_for (sg s) o (x, y, public_level s up z) /\
-  valid_level (sg s) (public_level s up z) = true /\
-  0 <= x < fst (grid_size (sg s) (public_level s up z)) /\ 0 <= y < snd (grid_size (sg s) (public_level s up z)).
+Lemma layer_internal_some s o up all x y z c :
+  layer_internal s o up all x y z = Some c ->
+  0 <= z /\ c = flip_for (sg s) o (x, y, req_level s up all z) /\
+  valid_level (sg s) (req_level s up all z) = true /\
+  0 <= x < fst (grid_size (sg s) (req_level s up all z)) /\ 0 <= y < snd (grid_size (sg s) (req_level s up all z)).
 Proof.
-  unfold layer_internal. destruct (internal_tile_coord s x y z up) as [c0|] eqn:E; [|discriminate].
+  unfold layer_internal. destruct (internal_tile_coord s x y z up all) as [c0|] eqn:E; [|discriminate].
   intros H. inversion H. apply internal_some in E. destruct E as (Hz & -> & Hv & Hx & Hy). auto.
 Qed.
 
@@ -146,6 +146,7 @@ Proof.
   destruct (lookup_order z (tile_sets s)) as [u|] eqn:El; [|discriminate].
   apply tile_sets_spec in El. destruct El as (Hz & Hv & ->).
   apply layer_internal_some in Hc. destruct Hc as (_ & -> & _ & _ & _).
+  change (req_level s true false z) with (public_level s true z).
   inversion Hr; subst r. clear Hr. cbv zeta.
   set (l := public_level s true z). set (g := sg s).
   unfold flip_for, tile_bbox_c, flip_tile_coord, tile_bbox, shift_xy, misalign.
@@ -193,7 +194,7 @@ Lemma tms_advertised_served_l s srv z x y u :
   exists c, served s srv (ATms z x y) = Some c.
 Proof.
   intros Hl Hx Hy. apply tile_sets_spec in Hl. destruct Hl as (Hz & Hv & _).
-  unfold served, layer_internal. rewrite (internal_valid s x y z true Hz Hv Hx Hy). eexists. reflexivity.
+  unfold served, layer_internal. rewrite (internal_valid s x y z true false Hz Hv Hx Hy). eexists. reflexivity.
 Qed.
 
 (* finding F8: bbox [0,0,1000,700], res 4/2/1 (lattice: 40, 20, 10), 100 px tiles, origin ul *)
@@ -263,11 +264,11 @@ Proof.
 Qed.
 
 Lemma wmts_address_exact_l s srv m col row r :
-  0 < s_mpu_n s -> 0 < s_mpu_d s -> skip_odd s = false ->
+  0 < s_mpu_n s -> 0 < s_mpu_d s ->
   client_rect s srv (AWmts m col row) = Some r ->
   exists c, served s srv (AWmts m col row) = Some c /\ tile_bbox_c (sg s) c = r.
 Proof.
-  intros Hn Hd Hs. unfold client_rect, wmts_matrix_set, served.
+  intros Hn Hd. unfold client_rect, wmts_matrix_set, served.
   destruct (wmts_offered s) eqn:Ho; [|discriminate].
   destruct (find (fun tm => tm_id tm =? m) (map (wmts_matrix s) (zrange 0 (levels (sg s) - 1)))) as [tm|] eqn:Ef; [|discriminate].
   apply find_some_id in Ef. destruct Ef as [Hi Hid].
@@ -277,8 +278,8 @@ Proof.
   destruct ((0 <=? col) && (col <? fst (grid_size (sg s) l)) && (0 <=? row) && (row <? snd (grid_size (sg s) l))) eqn:Er; [|discriminate].
   intros Hr. inversion Hr; subst r. clear Hr.
   assert (Hv : valid_level (sg s) l = true) by (unfold valid_level; lia).
-  assert (Hp : public_level s false l = l) by (unfold public_level; rewrite Hs; reflexivity).
-  unfold layer_internal. rewrite (internal_valid s col row l false) by (rewrite ?Hp; try assumption; lia).
+  assert (Hp : req_level s false true l = l) by reflexivity.
+  unfold layer_internal. rewrite (internal_valid s col row l false true) by (rewrite ?Hp; try assumption; lia).
   rewrite Hp. eexists. split; [reflexivity|].
   unfold wmts_client_rect. rewrite (wmts_client_res_exact s l Hn Hd), Ftw, Fth.
   destruct (if s_ne s then (snd (tm_top (wmts_matrix s l)), fst (tm_top (wmts_matrix s l))) else tm_top (wmts_matrix s l)) as [tlx tly].
@@ -287,19 +288,15 @@ Proof.
   destruct (ul (sg s)) eqn:U; destruct (grid_size (sg s) l) as [nx ny]; cbn [snd]; rewrite ?U; apply bbox_eq; ring.
 Qed.
 
-(* finding W1: on a sqrt2 grid the requested matrix is doubled *)
+(* non-vacuity with the sqrt2 level skip (finding W1, repaired): matrix 1 is served from level 1 *)
 Definition w1_grid : grid := mkGrid 0 0 141400 141400 1 1 [141400; 100000; 70700; 50000] true 23 20 4 1.
 Definition w1_layer : tlayer := mkLayer w1_grid SrsOther false true false 1 1 (0, 0, 141400, 141400) 10.
-Lemma wmts_address_refuted_l :
-  exists s srv m col row r c,
-    wf (sg s) /\ 0 < s_mpu_n s /\ 0 < s_mpu_d s /\ skip_odd s = true /\
-    client_rect s srv (AWmts m col row) = Some r /\ served s srv (AWmts m col row) = Some c /\
-    tile_bbox_c (sg s) c <> r.
-Proof.
-  exists w1_layer, ONone, 1, 0, 0, (0, 41400, 100000, 141400), (0, 0, 2).
-  split. { unfold wf, pos_res, w1_layer, w1_grid; cbn. repeat split; lia. }
-  repeat split; try reflexivity. vm_compute. discriminate.
-Qed.
+Example ex_wmts_sqrt2 :
+  skip_odd w1_layer = true /\
+  client_rect w1_layer ONone (AWmts 1 0 0) = Some (0, 41400, 100000, 141400) /\
+  served w1_layer ONone (AWmts 1 0 0) = Some (0, 0, 1) /\ tile_bbox w1_grid 0 0 1 = (0, 41400, 100000, 141400) /\
+  served w1_layer ONone (AWmts 3 1 1) = Some (1, 1, 3) /\ served w1_layer ONone (ATms 1 0 0) = Some (0, 1, 2).
+Proof. repeat split; vm_compute; reflexivity. Qed.
 
 Definition ex_ll_unaligned : grid := mkGrid 0 0 800 400 4 2 [100; 50] false 23 20 4 1.
 Example ex_wmts_exact :
@@ -320,6 +317,7 @@ Proof.
   cbv zeta. unfold client_rect, served. fold (request_origin srv q). intros Ha Hr Hc.
   destruct (z <? 0); [discriminate|]. inversion Hr; subst r.
   apply layer_internal_some in Hc. destruct Hc as (_ & -> & _).
+  change (req_level s false false z) with (public_level s false z).
   apply flip_for_rect. exact Ha.
 Qed.
 
@@ -332,7 +330,8 @@ Proof.
   unfold client_rect, served. intros Ha Hr Hc.
   destruct (z <? 0); [discriminate|]. inversion Hr; subst r.
   apply layer_internal_some in Hc. destruct Hc as (_ & -> & _).
-  change false with (effective_origin (sg s) OSW). apply flip_for_rect.
+  change (req_level s false false z) with (public_level s false z).
+  change false with (effective_origin (sg s) OSW) at 2. apply flip_for_rect.
   cbn [effective_origin]. destruct Ha as [-> | H]; auto.
 Qed.
 
@@ -348,7 +347,7 @@ Lemma tiles_advertised_served_l s srv q z x y :
   exists c, served s srv (ATiles q z x y) = Some c.
 Proof.
   intros Hz Hv Hx Hy. unfold served, layer_internal.
-  rewrite (internal_valid s x y z false Hz Hv Hx Hy). eexists. reflexivity.
+  rewrite (internal_valid s x y z false false Hz Hv Hx Hy). eexists. reflexivity.
 Qed.
 
 Example ex_origin_override :
@@ -363,7 +362,7 @@ Definition addr_ok (s : tlayer) (srv : origin_req) (a : address) : Prop :=
   | ATms z _ _ => tms_origin_ok s (public_level s true z)
   | ATiles q z _ _ => effective_origin (sg s) (request_origin srv q) = ul (sg s) \/ misalign (sg s) (public_level s false z) = 0
   | AKml z _ _ => ul (sg s) = false \/ misalign (sg s) (public_level s false z) = 0
-  | AWmts _ _ _ => 0 < s_mpu_n s /\ 0 < s_mpu_d s /\ skip_odd s = false
+  | AWmts _ _ _ => 0 < s_mpu_n s /\ 0 < s_mpu_d s
   end.
 
 Lemma address_exact_l s srv a r c :
@@ -373,17 +372,17 @@ Proof.
   - apply (tms_address_exact_iff_l s srv z x y r c Hr Hc). exact Ha.
   - exact (tiles_address_exact_l s srv q z x y r c Ha Hr Hc).
   - exact (kml_address_exact_l s srv z x y r c Ha Hr Hc).
-  - destruct Ha as (Hn & Hd & Hs). destruct (wmts_address_exact_l s srv m col row r Hn Hd Hs Hr) as (c' & Hc' & He).
+  - destruct Ha as (Hn & Hd). destruct (wmts_address_exact_l s srv m col row r Hn Hd Hr) as (c' & Hc' & He).
     congruence.
 Qed.
 
 Lemma served_valid s srv a c :
   served s srv a = Some c -> let '(x, y, l) := c in limit_tile (sg s) x y l = Some c.
 Proof.
-  assert (G : forall o up x y z, layer_internal s o up x y z = Some c -> let '(x, y, l) := c in limit_tile (sg s) x y l = Some c).
-  { intros o up x y z H. apply layer_internal_some in H. destruct H as (_ & -> & Hv & Hx & Hy).
-    pose proof (flip_for_valid (sg s) o x y (public_level s up z) (limit_tile_valid _ _ _ _ Hv Hx Hy)) as Hf.
-    destruct (flip_for (sg s) o (x, y, public_level s up z)) as [[x' y'] l']. exact Hf. }
+  assert (G : forall o up all x y z, layer_internal s o up all x y z = Some c -> let '(x, y, l) := c in limit_tile (sg s) x y l = Some c).
+  { intros o up all x y z H. apply layer_internal_some in H. destruct H as (_ & -> & Hv & Hx & Hy).
+    pose proof (flip_for_valid (sg s) o x y (req_level s up all z) (limit_tile_valid _ _ _ _ Hv Hx Hy)) as Hf.
+    destruct (flip_for (sg s) o (x, y, req_level s up all z)) as [[x' y'] l']. exact Hf. }
   destruct a as [z x y|q z x y|z x y|m col row]; cbn [served]; try apply G.
   destruct (wmts_offered s); [apply G|discriminate].
 Qed.
@@ -505,34 +504,39 @@ Proof. repeat split; vm_compute; reflexivity. Qed.
 
 (* ---- KML super-overlay links *)
 Lemma kml_href_roundtrip_l s srv x y l h :
-  skip_odd s = false ->
+  (skip_odd s = false \/ l mod 2 = 0) ->
   limit_tile (sg s) x y l = Some (x, y, l) ->
   kml_href_coord s (x, y, l) = Some h ->
   let '(hx, hy, hz) := h in served s srv (AKml hz hx hy) = Some (x, y, l).
 Proof.
-  intros Hs Hl. unfold kml_href_coord, external_tile_coord. rewrite Hs. cbn [andb].
-  pose proof (limit_tile_some _ _ _ _ _ Hl) as (_ & Hv & Hx & Hy).
-  assert (0 <= l) by (unfold valid_level in Hv; lia). replace (l <? 0) with false by lia.
-  intros H0. inversion H0; subst h. clear H0.
-  assert (Hp : public_level s false l = l) by (unfold public_level; rewrite Hs; reflexivity).
-  unfold served, layer_internal, flip_for.
-  destruct (ul (sg s)) eqn:U.
-  - unfold flip_tile_coord.
-    rewrite (internal_valid s x (snd (grid_size (sg s) l) - 1 - y) l false) by (rewrite ?Hp; try assumption; lia).
-    rewrite Hp. unfold flip_tile_coord. f_equal. f_equal. f_equal. lia.
-  - rewrite (internal_valid s x y l false) by (rewrite ?Hp; try assumption; lia). rewrite Hp. reflexivity.
+  intros Hs Hl. pose proof (limit_tile_some _ _ _ _ _ Hl) as (_ & Hv & Hx & Hy).
+  assert (H0 : 0 <= l) by (unfold valid_level in Hv; lia).
+  set (hz := if skip_odd s then l / 2 else l).
+  assert (Hhz : 0 <= hz) by (unfold hz; destruct (skip_odd s); lia).
+  assert (Hp : req_level s false false hz = l).
+  { unfold req_level, public_level, hz. cbn [andb]. destruct (skip_odd s); [|reflexivity].
+    destruct Hs as [Hs|Hs]; [discriminate|]. lia. }
+  unfold kml_href_coord, external_tile_coord, flip_tile_coord. cbn [andb].
+  destruct (ul (sg s)) eqn:U; replace (l <? 0) with false by lia; fold hz; intros E; inversion E; subst h; clear E;
+    cbv beta iota zeta; unfold served, layer_internal, flip_for.
+  - match goal with |- context [internal_tile_coord s x ?yy hz false false] =>
+      rewrite (internal_valid s x yy hz false false)
+        by (rewrite ?Hp; try assumption; unfold grid_size in *; cbn [fst snd] in *; lia) end.
+    rewrite Hp, U. unfold flip_tile_coord, grid_size. cbn [snd]. f_equal. f_equal. f_equal. lia.
+  - rewrite (internal_valid s x y hz false false) by (rewrite ?Hp; try assumption; lia). rewrite Hp, U. reflexivity.
 Qed.
 
-(* finding K1: sqrt2 level skip and origin ul: the link of internal tile (0, 0, 2) is flipped with the grid size of level 1 *)
-Lemma kml_href_refuted_l :
-  exists s srv x y l hx hy hz,
-    wf (sg s) /\ skip_odd s = true /\ ul (sg s) = true /\ limit_tile (sg s) x y l = Some (x, y, l) /\
-    kml_href_coord s (x, y, l) = Some (hx, hy, hz) /\ served s srv (AKml hz hx hy) <> Some (x, y, l).
-Proof.
-  exists w1_layer, ONone, 0, 0, 2, 0, 0, 1.
-  split. { unfold wf, pos_res, w1_layer, w1_grid; cbn. repeat split; lia. }
-  repeat split; try reflexivity. vm_compute. discriminate.
-Qed.
+(* non-vacuity with the sqrt2 level skip on a ul grid (finding K1, repaired): internal tile (0, 0, 2) is linked as
+   /1/0/1 (row flipped with the 2 rows of level 2) and that address is answered with (0, 0, 2) *)
+Example ex_kml_href_sqrt2 :
+  skip_odd w1_layer = true /\ ul (sg w1_layer) = true /\ limit_tile w1_grid 0 0 2 = Some (0, 0, 2) /\
+  kml_href_coord w1_layer (0, 0, 2) = Some (0, 1, 1) /\ served w1_layer ONone (AKml 1 0 1) = Some (0, 0, 2).
+Proof. repeat split; vm_compute; reflexivity. Qed.
+
+(* the document of the last level has no sub tiles (finding K2, repaired) *)
+Example ex_kml_last_level :
+  kml_document ex_geod_layer 0 0 2 = KmlDoc (-1800, -900, -900, 0) [].
+Proof. vm_compute. reflexivity. Qed.
 
 Example ex_kml_doc :
   kml_document ex_geod_layer 0 0 0 =
